@@ -548,6 +548,69 @@ func r075(c *Ctx, r *R) {
 		}
 		r.Check(ok, "crdt.setup:trust-config", s.Pos(), "setup calls Trust for the elements of config.TrustedPeers", "setup no longer trusts the peers listed in config.TrustedPeers")
 	}
+	// who may grant trust: trustedPeers is written only by Trust/Distrust,
+	// Trust is called only from setup (configured peers), and
+	// Config.TrustAll / TrustedPeers are assigned only by the config code
+	{
+		trustFn := c.P.Func("consensus/crdt", "Consensus.Trust")
+		c.P.RepoFuncs(func(g *ssa.Function) {
+			if isTestSupportFn(g) {
+				return
+			}
+			for _, ci := range callsIn(g) {
+				cn := callName(ci.Common())
+				if nameMatches(cn, "(*sync.Map).Store", "(*sync.Map).LoadOrStore") && len(ci.Common().Args) > 0 {
+					if fld, _ := fieldOfAddrValue(ci.Common().Args[0]); fld != nil && fld.Name() == "trustedPeers" {
+						r.Check(g == trustFn, "trust-writers:"+g.String(), ci.Pos(), "the trusted set is written by Trust only", g.String()+" adds to the trusted set outside Trust()")
+					}
+				}
+				if trustFn != nil && ci.Common().StaticCallee() == trustFn || nameMatches(cn, ModPath+".Consensus).Trust") {
+					ok := g.String() == "(*"+ModPath+"/consensus/crdt.Consensus).setup"
+					r.Check(ok, "trust-callers:"+g.String(), ci.Pos(), "Trust is called for configured peers only (setup)", g.String()+" grants trust: a peer becomes trusted without being in the configuration or an explicit Trust call by the operator")
+				}
+			}
+			instrs(g, func(i ssa.Instruction) {
+				st, ok := i.(*ssa.Store)
+				if !ok {
+					return
+				}
+				fld, base := fieldOfAddrValue(st.Addr)
+				if fld == nil || (fld.Name() != "TrustAll" && fld.Name() != "TrustedPeers") || !strings.HasSuffix(base.Type().String(), "consensus/crdt.Config") {
+					return
+				}
+				allowed := strings.HasPrefix(g.String(), "(*"+ModPath+"/consensus/crdt.Config).")
+				if !allowed && fld.Name() == "TrustAll" {
+					if k, isK := constOf(st.Val); isK && (k == nil || !constant.BoolVal(k)) {
+						allowed = true // turning trust-all off is always fine
+					}
+				}
+				if !allowed && fld.Name() == "TrustedPeers" {
+					// the daemons fill the list from user input; not TrustAll
+					allowed = strings.Contains(g.String(), "/cmd/") || strings.Contains(g.String(), "/cmdutils")
+				}
+				r.Check(allowed, "trust-config-writers:"+fld.Name()+":"+g.String(), st.Pos(), fld.Name()+" is assigned by configuration code", g.String()+" assigns crdt Config."+fld.Name()+" outside the configuration code")
+			})
+		})
+	}
+	// saving the configuration writes "*" only for trust-all
+	if tj := c.fn(r, "consensus/crdt", "Config.toJSONConfig"); tj != nil {
+		n := 0
+		instrs(tj, func(i ssa.Instruction) {
+			st, ok := i.(*ssa.Store)
+			if !ok {
+				return
+			}
+			if s, isS := constString(st.Val); !isS || s != "*" {
+				return
+			}
+			n++
+			r.Check(guardedBy(st.Block(), func(g Guard) bool { return gField(g, "TrustAll", true) }), "crdt.config:star-only-for-trustall", st.Pos(), "\"*\" is written only when TrustAll is set",
+				"toJSONConfig writes \"*\" for a configuration that does not trust everyone: after the save/env-var round trip (always run by the daemon) an explicit or empty trust list becomes trust-all")
+		})
+		if n == 0 {
+			r.Und("crdt.config:star", tj.Pos(), "toJSONConfig never writes \"*\": TrustAll is not saved")
+		}
+	}
 	// TrustAll := true only under p == "*" ; reset to false before
 	fd, pkg := c.decl(r, "consensus/crdt", "Config.applyJSONConfig")
 	if fd != nil {
